@@ -193,6 +193,8 @@ class TreeCheck:
                 bb = b
                 if "program" in plan:
                     bb = dict(b, program=plan.pop("program"))
+                if "_timeouts" in plan:
+                    bb = dict(bb, timeouts=dict(bb.get("timeouts", {}), **plan.pop("_timeouts")))
                 derived.append(mk_case(self.prop, bb, plan, meta, seed))
 
         for c, b in zip(base_cases, bases):
